@@ -33,7 +33,7 @@ SPEC = {
         "null/bool/int/string and by vm_compute on every compared pair (floats: bit pattern -> primitive float by SF2Prim)",
         "numeric_twin exactness (an equal number of the other numeric type is reached through the twin encoding) is not proved: "
         "`k_numeric = false` is a hypothesis of C15_index_transparent and is evaluated on every query of every case (a hit is a violation)",
-        "the index B-tree behaves as a multiset of (key, node id) entries (C26's subject; histories here keep the tree within one leaf)",
+        "the index B-tree behaves as a multiset of (key, node id) entries (C26's subject); most histories keep the tree within one leaf, one history in 25 (quick; 150 thorough) grows it to 290-390 live and dead entries so that the root leaf splits while an update of an existing node is applied, followed by duplicate-value writes, a reopen and a lookup sweep",
         "Rust harness harness/hx_update/src/bin/c15.rs (generator, two-database runner, store dump, Rust mirror used for classification) and lib/vcheck.py",
     ],
     "assumptions": [
